@@ -18,7 +18,7 @@ LEVEL_TEXT = "Bounded-exhaustive enumeration of the header-encoding state machin
 LEVEL_NOTE = "Trusted: the model's list-order/inheritance rules (NI format description). Beyond the bound coverage is random."
 TECHNIQUE = 'bounded-exhaustive encoding enumeration against a reference model + aliasing snapshots + sys.monitoring reach recorder'
 RULE = ('bounded-exhaustive: all sequences of 2 segments (quick; +sampled 3-segment) / all sequences of 3 segments '
-        '(thorough; +sampled 4-segment) over per-channel ops {unlisted, full n=1, full n=2, full other type, same, nodata}^2 '
+        '(thorough; +sampled 4-segment; + all 2-segment and sampled 3-segment sequences over a 3-channel universe) over per-channel ops {unlisted, full n=1, full n=2, full other type, same, nodata}^2 '
         'x new-obj-list x metadata flag x chunks{1,2}; plus random 5-12 segment files with strings/properties/'
         'interleaving. non-trivial = encoding uses at least one non-full mechanism (same/nodata/unlisted carry-over/'
         'no metadata) and holds data; distinct = the encoding string itself')
@@ -28,25 +28,25 @@ ASSUMPTIONS = ['model list-order rule: listed objects replace in place, new ones
 REQUIRED = ['valid_compared', 'forbidden_checked', 'alias_snapshots', 'explicit_compared', 'lazy_compared']
 EXHAUSTIVE = {'quick': False, 'thorough': False}
 
-A, B = "/'g'/'a'", "/'g'/'b'"
+A, B, CC = "/'g'/'a'", "/'g'/'b'", "/'h'/'c'"
 OPS = ['-', 'f1', 'f2', 'fx', 's', 'n']     # unlisted, full n=1, full n=2, full other type n=1, same, nodata
-TYPE_OF = {A: 'i32', B: 'i16'}
-OTHER = {A: 'f32', B: 'f64'}      # one equally sized and one differently sized alternative type
+TYPE_OF = {A: 'i32', B: 'i16', CC: 'f64'}
+OTHER = {A: 'f32', B: 'f64', CC: 'i64'}      # equally sized and differently sized alternative types
 
 
-def seg_choices():
+def seg_choices(nchan=2):
     out = []
-    for oa in OPS:
-        for ob in OPS:
-            for newobj in (0, 1):
-                for nch in (1, 2):
-                    out.append((1, newobj, oa, ob, nch))
-    out.append((0, 0, '-', '-', 1))
-    out.append((0, 0, '-', '-', 2))
+    for ops in itertools.product(OPS, repeat=nchan):
+        for newobj in (0, 1):
+            for nch in (1, 2):
+                out.append((1, newobj) + tuple(ops) + (nch,))
+    out.append((0, 0) + ('-',) * nchan + (1,))
+    out.append((0, 0) + ('-',) * nchan + (2,))
     return out
 
 
-CHOICES = seg_choices()
+CHOICES = seg_choices(2)
+CHOICES3 = seg_choices(3)       # three-channel universe (thorough)
 
 
 def gen_cases(tier, seed):
@@ -68,16 +68,25 @@ def gen_cases(tier, seed):
         rng = random.Random('c02t%d' % seed)
         for _ in range(200000):
             yield {'k': 'enum', 'segs': [rng.randrange(n) for _ in range(4)]}
+        n3 = len(CHOICES3)
+        for i in range(n3):
+            for j in range(n3):
+                yield {'k': 'enum3', 'segs': [i, j]}
+        for _ in range(300000):
+            yield {'k': 'enum3', 'segs': [rng.randrange(n3) for _ in range(3)]}
         for i in range(40000):
             yield {'k': 'rnd', 's': seed * 1000003 + i}
 
 
-def build_enum(choice_ids, rng):
+def build_enum(choice_ids, rng, choices=None, paths=(A, B)):
     """-> (segs, verdict) verdict in valid / forbidden:<why>"""
+    choices = choices or CHOICES
     segs, active, last_index, ever_type = [], [], {}, {}
     verdict = 'valid'
     for si, cid in enumerate(choice_ids):
-        has_meta, newobj, oa, ob, nch = CHOICES[cid]
+        ch_ = choices[cid]
+        has_meta, newobj, nch = ch_[0], ch_[1], ch_[-1]
+        ops_ = ch_[2:-1]
         s = M.Seg()
         s.endian = '<'
         s.has_meta = bool(has_meta)
@@ -93,7 +102,7 @@ def build_enum(choice_ids, rng):
             else:
                 prev_for_order = prev_active
             listing = []
-            for p, op in ((A, oa), (B, ob)):
+            for p, op in zip(paths, ops_):
                 if op == '-':
                     continue
                 cur = [i for i, (pp, _, _) in enumerate(active) if pp == p]
@@ -239,10 +248,14 @@ def compare_model(ctx, segs, snap, label):
 
 def run_case(case, ctx):
     ctx.evaluation()
-    if case['k'] == 'enum':
-        rng = random.Random('c02e' + repr(case['segs']))
-        segs, verdict = build_enum(case['segs'], rng)
-        enc_name = '|'.join('%d%d%s%s%d' % CHOICES[c] for c in case['segs'])
+    if case['k'] in ('enum', 'enum3'):
+        rng = random.Random('c02e' + case['k'] + repr(case['segs']))
+        if case['k'] == 'enum':
+            segs, verdict = build_enum(case['segs'], rng)
+            enc_name = '|'.join('%d%d%s%s%d' % CHOICES[c] for c in case['segs'])
+        else:
+            segs, verdict = build_enum(case['segs'], rng, CHOICES3, (A, B, CC))
+            enc_name = '3:' + '|'.join('%d%d%s%s%s%d' % CHOICES3[c] for c in case['segs'])
     else:
         rng = random.Random('c02r%d' % case['s'])
         segs = M.gen_file(rng, max_segs=12, max_chans=4, p_same=0.4, p_nodata=0.2, p_nometa=0.2, p_newobj=0.3,
@@ -269,7 +282,7 @@ def run_case(case, ctx):
     nonfull = any((not s.has_meta) or any(h != 'full' for _, h, _ in s.listing) or
                   (s.has_meta and not s.new_obj_list and len(s.listing) < len(s.active)) for s in segs)
     if nonfull and any(s.chunks for s in segs):
-        ctx.distinct(enc_name if case['k'] == 'enum' else tuple(s.signature() for s in segs))
+        ctx.distinct(enc_name if case['k'] in ('enum', 'enum3') else tuple(s.signature() for s in segs))
     for mode in ('eager', 'lazy'):
         if isinstance(res[mode], Exception):
             ctx.violation('valid-encoding-raises/%s/%s' % (mode, util.exc_key(res[mode])),
